@@ -568,6 +568,10 @@ func (c *Chain) fillSync(p *ProposeCtx) {
 	if mode == "random" {
 		mode = pick(c.Rng, "full", "full", "most", "half", "few", "none")
 	}
+	if c.isForkStart(p.Slot) {
+		mode = pick(c.Rng, "full", "most")
+		p.Ops["sync_at_first_slot_of_fork"]++
+	}
 	var keys []KeyNum
 	// members come from the STATE (the spec's truth), not from the context
 	ss, ok := p.A.(common.SyncCommitteeBeaconState)
@@ -620,6 +624,19 @@ func (c *Chain) fillSync(p *ProposeCtx) {
 	p.B.Sync = altair.SyncAggregate{SyncCommitteeBits: bits, SyncCommitteeSignature: c.BLS.Sign(keys, msg)}
 	p.Ops["sync_bits"] += len(keys)
 	p.Ops["sync_"+mode]++
+}
+
+func (c *Chain) isForkStart(s common.Slot) bool {
+	if s%c.Spec.SLOTS_PER_EPOCH != 0 {
+		return false
+	}
+	e := c.Spec.SlotToEpoch(s)
+	for _, fe := range c.forkEpochsInside() {
+		if fe == e {
+			return true
+		}
+	}
+	return false
 }
 
 // ---- execution payload ----
@@ -843,7 +860,11 @@ func (c *Chain) fillEth1AndDeposits(p *ProposeCtx) {
 			c.refreshCandidate()
 		}
 	}
-	if c.HaveCandidate && cur != c.Eth1Candidate && c.Eth1Candidate.DepositCount > cur.DepositCount {
+	period := uint64(sp.EPOCHS_PER_ETH1_VOTING_PERIOD) * uint64(sp.SLOTS_PER_EPOCH)
+	if c.Eth1HalfPattern {
+		c.voteHalfPattern(p, cur, votes, period)
+		vote = p.B.Eth1Data
+	} else if c.HaveCandidate && cur != c.Eth1Candidate && c.Eth1Candidate.DepositCount > cur.DepositCount {
 		x := c.Rng.Intn(100)
 		if c.VoteAlways {
 			x = 0
@@ -870,7 +891,6 @@ func (c *Chain) fillEth1AndDeposits(p *ProposeCtx) {
 	if err != nil {
 		panic(err)
 	}
-	period := uint64(sp.EPOCHS_PER_ETH1_VOTING_PERIOD) * uint64(sp.SLOTS_PER_EPOCH)
 	if (cnt+1)*2 > period {
 		eff = vote
 		if eff != cur {
@@ -895,6 +915,46 @@ func (c *Chain) fillEth1AndDeposits(p *ProposeCtx) {
 			p.B.Deposits = append(p.B.Deposits, c.DepTree.Deposit(uint64(idx)+i, uint64(eff.DepositCount)))
 			p.Ops["deposit"]++
 		}
+	}
+}
+
+// voteHalfPattern (scenario eth1_votes): the first vote of a period is some X; then Y is voted until it has EXACTLY half of the
+// period's votes (count*2 == period, not adopted); in even periods other values follow so that Y stays at exactly half, in odd
+// periods Y is voted once more and is adopted.
+func (c *Chain) voteHalfPattern(p *ProposeCtx, cur common.Eth1Data, votes common.Eth1DataVotes, period uint64) {
+	nv, _ := votes.Length()
+	garbage := func() common.Eth1Data {
+		g := cur
+		copy(g.BlockHash[:], c.Rng.Bytes(32))
+		return g
+	}
+	if nv == 0 {
+		// new period: choose Y (the deposit candidate when there is one, else the current data under another block hash)
+		if c.HaveCandidate && c.Eth1Candidate.DepositCount > cur.DepositCount {
+			c.halfY = c.Eth1Candidate
+		} else {
+			c.halfY = garbage()
+		}
+		c.halfPeriod++
+		p.B.Eth1Data = garbage()
+		p.Ops["eth1_vote_garbage"]++
+		return
+	}
+	cntY, _ := votes.Count(c.halfY)
+	switch {
+	case cntY*2 < period:
+		p.B.Eth1Data = c.halfY
+		p.Ops["eth1_vote_candidate"]++
+		if (cntY+1)*2 == period {
+			p.Ops["eth1_vote_reaches_exactly_half"]++
+		}
+	case c.halfPeriod%2 == 1:
+		p.B.Eth1Data = c.halfY
+		p.Ops["eth1_vote_candidate"]++
+	default:
+		p.B.Eth1Data = garbage()
+		p.Ops["eth1_vote_garbage"]++
+		p.Ops["eth1_vote_while_other_at_exactly_half"]++
 	}
 }
 
@@ -934,6 +994,7 @@ func (c *Chain) Propose(s common.Slot) (bool, error) {
 	}
 	A := Unwrap(adv.Post)
 	eA := adv.Epc
+	advPost, advEpc := adv.Post, adv.Epc
 	// The producer works from what the state says: a context computed from scratch. When the live context
 	// (advanced alongside) says something else, that is recorded, not hidden.
 	if eF, err := common.NewEpochsContext(specWith(sp, nil), A); err != nil {
@@ -1032,6 +1093,19 @@ func (c *Chain) Propose(s common.Slot) (bool, error) {
 		p.B.Signature = c.BLS.Sign1(c.keyOfVal(proposer), msg)
 	}
 	sb = p.B.Signed()
+	// the slot processing up to the block's slot is also judged on its own (always when it crosses an epoch or fork
+	// boundary, otherwise for a sample)
+	if c.Epoch() != p.Epoch || StateFork(c.St) != fork || c.Rng.Chance(20) {
+		aid := c.Rec.State(advPost)
+		c.Rec.Line("slots %s %d %s", c.StID, s, aid)
+		c.SlotSteps = append(c.SlotSteps, HonestSlots{PreID: c.StID, Target: s})
+		c.Stats.Inc("slots_records")
+		c.Stats.Inc("slots_records_before_block")
+		if c.Epoch() != p.Epoch {
+			c.recordEPC(aid, advPost, advEpc, StateFork(c.St) != fork)
+		}
+		c.noteState(advPost)
+	}
 	blkID := c.Rec.BlockBytes(fork, EncodeObj(sp, sb))
 	// 4. the recorded transition
 	preEpoch := c.Epoch()
@@ -1081,6 +1155,20 @@ func (c *Chain) Propose(s common.Slot) (bool, error) {
 	c.Honest = append(c.Honest, HonestStep{PreID: preID, Blk: p.B, BlkID: blkID, Engine: engMode, Line: line})
 	c.Stats.Inc("blocks")
 	c.Stats.Inc(fork.String() + ".blocks")
+	{
+		// validators whose exit this single block initiates (voluntary exits + slashings): the exit queue overflows inside
+		// one block when there are more than the churn limit, and advances twice from 2*churn+1 on
+		n := len(p.B.VoluntaryExits) + p.Ops["pslash"] + p.Ops["aslash_validators"]
+		churn := int(sp.GetChurnLimit(uint64(len(eA.CurrentEpoch.ActiveIndices))))
+		c.Stats.Max("max_exits_initiated_in_one_block", n)
+		if n > churn {
+			c.Stats.Inc("blocks_exit_queue_overflow")
+		}
+		if n >= 2*churn+1 {
+			c.Stats.Inc("blocks_exit_queue_advanced_twice")
+			c.Stats.Inc(fork.String() + ".blocks_exit_queue_advanced_twice")
+		}
+	}
 	if b := p.B; len(b.Attestations) > 0 && len(b.ProposerSlashings) > 0 && len(b.AttesterSlashings) > 0 && len(b.Deposits) > 0 && len(b.VoluntaryExits) > 0 &&
 		(fork < Capella || len(b.BLSChanges) > 0) {
 		c.Stats.Inc("blocks_with_all_ops")
